@@ -63,7 +63,7 @@ impl Dag {
     }
 //!end
 
-//!fn src/core/graph.rs Dag::get_labeled_groups rules=R3 props=C03,C09
+//!fn src/core/graph.rs Dag::get_labeled_groups rules=R3 props=C03,C09,C04
     pub fn get_labeled_groups(&mut self) -> ⟦(res: ⟧Result<Vec<Vec<String>>, GraphError>⟦)⟧
 @        requires
 @            wf(old(self).adj(), old(self).visibility@), old(self).cycle_state is Unknown, old(self).labels_total(),
@@ -305,7 +305,7 @@ impl Dag {
         Ok(())
     }
 //!end
-//!fn src/core/graph.rs Dag::get_groups rules=R3,R4 props=C03,C09
+//!fn src/core/graph.rs Dag::get_groups rules=R3,R4 props=C03,C09,C04
     pub fn get_groups(&mut self) -> ⟦(res:⟧ Result<Vec<Vec<usize>>, GraphError>⟦)⟧
        @requires
            @wf(old(self).adj(), old(self).visibility@), old(self).cycle_state is Unknown, old(self).labels_total(),
